@@ -60,8 +60,8 @@ def normSchema : Schema → Schema
   | .object ref flatten _ => .object ref flatten false
   | .oneof ref _ lr => .oneof ref false lr
   | .timestamp hasRules lr => .timestamp hasRules lr
-  | .date lr => .date lr
-  | .decimal lr => .decimal lr
+  | .date rules lr => .date rules lr
+  | .decimal rules lr => .decimal rules lr
   | .any od types lr => .any od types lr
 
 /-- does `buildField` attach a validate constraint to this item type? (decides whether an array
@@ -125,6 +125,9 @@ def schemaWFField (inArray : Bool) : Schema → Bool
     (match rules with
      | some r => enumRulesWF d r
      | none => true)
+  -- open finding class: the array annotation replaces the item's j5 annotation
+  | .date rules _ => !(inArray && rules.isSome)
+  | .decimal rules _ => !(inArray && rules.isSome)
   | .object _ flatten _ => !(inArray && flatten)
   | .any od types _ => !(inArray && (od || !types.isEmpty))
   | _ => true
